@@ -332,6 +332,15 @@ def obligations(tier, build):
                                 "container": "TraitDictObject owned by a HasTraits object; 1 legacy + 2 observe handlers"},
                         assumes=["pre-state keys pairwise distinct and valid"],
                         leverage="aliasing between operation keys and stored keys; validity of keys/values", max_paths=50000))
+    for label, fac_ in (("owned-anytrait", owners.dict_factory(route="anytrait")), ("owned-added", owners.dict_factory(added=True)),
+                        ("owned-added-anytrait", owners.dict_factory(route="anytrait", added=True))):
+        for op in ("setitem", "delitem", "update_pairs", "ior_map", "clear", "popitem", "setdefault"):
+            for s in (0, 1):
+                obs.append(Obligation("%s/%s/s=%d" % (label, op, s), make_harness(op, s, 1, "ident", "ident", factory=fac_), env=sym_env,
+                                      stubs=STUBS, bounds={"stored entries s": s, "container": "TraitDictObject; " + label +
+                                                           " (only an unnamed object-level legacy handler / trait added with add_trait, "
+                                                           "foreign twins must stay silent)"},
+                                      leverage="aliasing between operation keys and stored keys"))
     falsy = owners.dict_factory(falsy=True)
     for op in ("setitem", "setdefault", "update_pairs", "ior_map"):
         for s in (0, 1):
@@ -339,4 +348,8 @@ def obligations(tier, build):
                                   env=sym_env, stubs=STUBS,
                                   bounds={"stored entries s": s, "owner": "falsy (defines __bool__ / __len__)"},
                                   leverage="validity of keys/values"))
+    import props._owners as owners_
+    obs.append(Obligation("sharing/dict", owners_.sharing_harness("dict"),
+                          bounds={"ways of handing a value on": owners_.SHARING_HOWS, "declarations": "x and y from ONE shared definition object"},
+                          leverage="choice feasibility only", stubs=[]))
     return obs
